@@ -5,7 +5,7 @@ import json
 import os
 import time
 
-from ..core import pool, evidence, sut
+from ..core import pool, evidence, sut, reach
 from ..core.seeds import rng_for, verif_seed
 from ..hashsim import gen
 from ..hashsim.case import make_case, evaluate, minimise, pretty
@@ -259,6 +259,11 @@ def main(prop, tier, runs=None, write=True):
         "event_log_digest": digest,
         "known_findings_reported": known_lines,
     }
+    sample_n = min(cfg["runs"], 300)
+    cov["reach_sample"] = {"what": f"statement coverage of the anchored files over the first {sample_n} runs of this "
+                                   "batch, re-executed in the parent process under coverage.py (non-gating)",
+                           **reach.measure(["npstructures/hashtable.py", "npstructures/raggedshape.py"],
+                                           lambda: explore_chunk(0, sample_n, payload))}
     for line in known_lines:
         print(line)
     for path, small, v in violations:
